@@ -48,6 +48,11 @@ func enforced(fd protoreflect.FieldDescriptor) bool {
 		return false
 	}
 	file := fd.ParentFile()
+	if file == nil {
+		// declarations of historical generated code (legacy extension descriptors) have no file:
+		// they are proto2 or proto3 by construction, never editions
+		return fd.Syntax() == protoreflect.Proto3
+	}
 	switch file.Syntax() {
 	case protoreflect.Proto2:
 		return false
@@ -340,8 +345,9 @@ func positions(md protoreflect.MessageDescriptor, depth int, path []protoreflect
 		fds = append(fds, fs.Get(i))
 	}
 	if md.ExtensionRanges().Len() > 0 {
-		for _, n := range []int{} {
-			_ = n
+		// registered extensions of the message are positions like any other field
+		for _, xt := range model.ExtensionsOf(md.FullName()) {
+			fds = append(fds, xt.TypeDescriptor())
 		}
 	}
 	for _, fd := range fds {
@@ -397,6 +403,23 @@ var (
 		return out
 	}()
 )
+
+// types that have a UTF-8 validated string extension within reach, and those positions
+var extTypes, extPos = func() ([]string, map[string][]pos) {
+	m := map[string][]pos{}
+	var out []string
+	for _, n := range strTypes {
+		for _, p := range posCache[n] {
+			if p.fd.IsExtension() && p.fd.Kind() == protoreflect.StringKind && enforced(p.fd) {
+				m[n] = append(m[n], p)
+			}
+		}
+		if len(m[n]) > 0 {
+			out = append(out, n)
+		}
+	}
+	return out, m
+}()
 
 // place writes a marker-bearing field for position p into v (creating the path).
 func place(t *rapid.T, v *model.Msg, p pos, mo gen.MsgOpts) bool {
@@ -492,6 +515,20 @@ func place(t *rapid.T, v *model.Msg, p pos, mo gen.MsgOpts) bool {
 		nf.Vals = []model.Val{mk}
 	}
 	cur.Put(nf)
+	if fd.IsExtension() {
+		// neighbours: other extensions of the same message, below and above the marked one (an
+		// encoder walks extensions in number order; an error raised for one must survive the rest)
+		xs := model.ExtensionsOf(fd.ContainingMessage().FullName())
+		for k := rapid.IntRange(0, 2).Draw(t, "ext-neighbours"); k > 0 && len(xs) > 1; k-- {
+			xd := xs[rapid.IntRange(0, len(xs)-1).Draw(t, "ext-neighbour")].TypeDescriptor()
+			if xd.Number() == fd.Number() || cur.Get(int32(xd.Number())) != nil || gen.SkipConstrainedJSON(xd) {
+				continue
+			}
+			if f, ok := gen.DrawField(t, xd, mo); ok {
+				cur.Put(f)
+			}
+		}
+	}
 	return true
 }
 
@@ -519,10 +556,19 @@ func TestUTF8(t *testing.T) {
 		Draw: func(t *rapid.T) utfCase {
 			var c utfCase
 			c.Type = gen.TypeName(strTypes, strRich).Draw(t, "type")
+			// validated string extensions exist on a handful of types only (proto3 extensions of the
+			// descriptor options, editions extensions with VERIFY): give them a fixed share
+			forceExt := len(extTypes) > 0 && rapid.IntRange(0, 11).Draw(t, "validated-extension") == 0
+			if forceExt {
+				c.Type = extTypes[rapid.IntRange(0, len(extTypes)-1).Draw(t, "ext-type")]
+			}
 			c.Dynamic = rapid.IntRange(0, 3).Draw(t, "dyn") == 0
 			md := c.Desc()
 			c.M = gen.DrawMessage(t, md, mo)
 			ps := posCache[c.Type]
+			if forceExt {
+				ps = extPos[c.Type]
+			}
 			p := ps[rapid.IntRange(0, len(ps)-1).Draw(t, "position")]
 			place(t, c.M, p, mo)
 			c.S = drawS(t)
@@ -543,7 +589,7 @@ func TestUTF8(t *testing.T) {
 			fd, _ := locate(c.Desc(), c.M)
 			cl := []string{"pos-" + c.Position, fmt.Sprintf("valid-%v", utf8.Valid(c.S))}
 			if fd != nil {
-				cl = append(cl, fmt.Sprintf("kind-%v-enforced-%v-%v", fd.Kind(), enforced(fd), fd.ParentFile().Syntax()))
+				cl = append(cl, fmt.Sprintf("kind-%v-enforced-%v-%v", fd.Kind(), enforced(fd), fd.Syntax()))
 			}
 			return cl
 		},
